@@ -84,37 +84,37 @@ type Decision struct {
 	Pad      int    // bytes of white space after the document
 
 	// malformed / failure stream
-	Status     int     // 0 = 200
-	RawLink    *string // replaces the Link header verbatim
-	RawBody    *string // replaces the body verbatim
-	CType      string  // replaces the Content-Type of a referrers response
-	ErrorCode  string  // error code of a non-200 body (default "UNKNOWN")
-	NoDigest   bool    // manifest endpoint: omit the Docker-Content-Digest header
+	Status    int     // 0 = 200
+	RawLink   *string // replaces the Link header verbatim
+	RawBody   *string // replaces the body verbatim
+	CType     string  // replaces the Content-Type of a referrers response
+	ErrorCode string  // error code of a non-200 body (default "UNKNOWN")
+	NoDigest  bool    // manifest endpoint: omit the Docker-Content-Digest header
 
 	// further Link material (RFC 8288 allows several link-values and several header lines)
-	PostSame  []string // link-values appended to the next link's line after a comma, e.g. `<u>; rel="first"`
-	PostLines []string // further Link header lines after the line with the next link
-	PreFirst  int      // 0: none; 1: a rel="first" link-value BEFORE the next link in the same line; 2: in a header line of its own before it
-	NoProgress bool    // internal: set when RawLink is used (no ground truth for the target)
+	PostSame   []string // link-values appended to the next link's line after a comma, e.g. `<u>; rel="first"`
+	PostLines  []string // further Link header lines after the line with the next link
+	PreFirst   int      // 0: none; 1: a rel="first" link-value BEFORE the next link in the same line; 2: in a header line of its own before it
+	NoProgress bool     // internal: set when RawLink is used (no ground truth for the target)
 }
 
 // Exchange is one logged request/response pair.
 type Exchange struct {
-	Kind     byte // 'T' tags, 'K' catalog, 'R' referrers, 'M' manifest
-	Repo     string
-	Path     string     // request path
-	Query    url.Values // request query as received
-	Dec      Decision
-	Status   int
-	Page     []Item // items in the body (after server-side filtering)
-	Unfilt   []Item // the page before filtering
-	More     bool   // items remain after this page
-	Link     string   // first Link header line ("" = absent): what http.Header.Get returns
-	Links    []string // all Link header lines
-	HasLink  bool     // a well-formed link with ground truth was issued
-	Text     string   // the text between '<' and '>' of the NEXT link
-	TPath    string   // intended next target path
-	TQuery   []KV     // intended next target query (pair order)
+	Kind    byte // 'T' tags, 'K' catalog, 'R' referrers, 'M' manifest
+	Repo    string
+	Path    string     // request path
+	Query   url.Values // request query as received
+	Dec     Decision
+	Status  int
+	Page    []Item   // items in the body (after server-side filtering)
+	Unfilt  []Item   // the page before filtering
+	More    bool     // items remain after this page
+	Link    string   // first Link header line ("" = absent): what http.Header.Get returns
+	Links   []string // all Link header lines
+	HasLink bool     // a well-formed link with ground truth was issued
+	Text    string   // the text between '<' and '>' of the NEXT link
+	TPath   string   // intended next target path
+	TQuery  []KV     // intended next target query (pair order)
 	// ground truth of the first link-value of the first line when that is NOT the next link (PreFirst)
 	PreText  string
 	PreQuery []KV
